@@ -157,6 +157,8 @@ class NP(object):
 
     def array(self, x, dtype=None, copy=True):
         self._u('array')
+        if isinstance(x, pysym.MemView):
+            return x.f['of']            # numpy takes the buffer of a typed memoryview
         if isinstance(x, (InArray, OutArray, Opaque)):
             return x
         a = _obj(x)
@@ -167,6 +169,8 @@ class NP(object):
 
     def ascontiguousarray(self, x, dtype=None):
         self._u('ascontiguousarray')
+        if isinstance(x, pysym.MemView):
+            return x.f['of']
         if isinstance(x, (InArray, OutArray, Opaque)):
             return x
         return _obj(x)
